@@ -7,6 +7,7 @@ import (
 	"fmt"
 	"os"
 	"runtime/debug"
+	"time"
 )
 
 type NdjsonWriter struct {
@@ -70,3 +71,9 @@ func (r *Rng) Shuffle(n int, swap func(i, j int)) {
 		swap(i, r.Intn(i+1))
 	}
 }
+
+// Fixed validity used where time is irrelevant to the property under test.
+var (
+	FixedFrom  = time.Date(2020, 3, 5, 0, 0, 0, 0, time.UTC)
+	FixedUntil = time.Date(2040, 3, 5, 0, 0, 0, 0, time.UTC)
+)
